@@ -62,6 +62,11 @@ func (eval *Evaluator) Evaluate(ct *rlwe.Ciphertext, testPolyWithSlotIndex map[i
 	ringQBR := eval.paramsBR.RingQ().AtLevel(brk.LevelQ())
 	ringQLWE := eval.paramsLWE.RingQ().AtLevel(ct.Level())
 
+	// The accumulator is kept from one call to the next, and the key switches
+	// below leave it at the level of the keys they used: it is brought to the
+	// level of the keys of this call.
+	acc.Resize(acc.Degree(), brk.LevelQ())
+
 	if ct.IsNTT {
 		ringQLWE.INTT(ct.Value[0], acc.Value[0])
 		ringQLWE.INTT(ct.Value[1], acc.Value[1])
